@@ -20,12 +20,15 @@ CONSTANTS
     MaxWrite,       \* largest single write
     MaxPause,       \* pause budget per channel
     Rogue,          \* budget of data messages sent by a peer that ignores the window
+    High, Low,      \* write buffer high / low water marks of the writer (set_write_buffer_limits)
+    ResumeStrict,   \* TRUE: sensitivity variant, writing resumes only BELOW the low-water mark
     AccountBuffered \* TRUE: buffered (undelivered) data counts against the window (repaired code)
 
 VARIABLES
     sstate,     \* [ch -> "open" | "eof_pending" | "eof"]
     sbuf,       \* [ch -> Seq([dt, ids])]   one entry per write()
     swin,       \* [ch -> Nat]
+    spaused,    \* [ch -> BOOLEAN]  _send_paused: the session was told pause_writing()
     fwd,        \* Seq of messages writer -> reader
     bwd,        \* Seq of messages reader -> writer
     rstate,     \* [ch -> "open" | "eof_pending" | "eof"]
@@ -44,10 +47,10 @@ VARIABLES
     accTot,     \* history [ch -> Nat] units accepted (delivered or buffered) by the reader
     lbl
 
-vars == <<sstate, sbuf, swin, fwd, bwd, rstate, rwin, rbuf, paused, err, written,
+vars == <<sstate, sbuf, swin, spaused, fwd, bwd, rstate, rwin, rbuf, paused, err, written,
           delivered, dorder, eofSent, npause, nrogue, granted, sentTot, gotAdj,
           accTot, lbl>>
-view == <<sstate, sbuf, swin, fwd, bwd, rstate, rwin, rbuf, paused, err, written,
+view == <<sstate, sbuf, swin, spaused, fwd, bwd, rstate, rwin, rbuf, paused, err, written,
           delivered, dorder, eofSent, npause, nrogue, granted, sentTot, gotAdj, accTot>>
 
 Min(a, b) == IF a < b THEN a ELSE b
@@ -58,6 +61,7 @@ Buffered(ch) == SumLens(rbuf[ch])
 Init ==
     /\ sstate = [c \in Chans |-> "open"] /\ sbuf = [c \in Chans |-> <<>>]
     /\ swin = [c \in Chans |-> InitWin]
+    /\ spaused = [c \in Chans |-> FALSE]
     /\ fwd = <<>> /\ bwd = <<>>
     /\ rstate = [c \in Chans |-> "open"] /\ rwin = [c \in Chans |-> InitWin]
     /\ rbuf = [c \in Chans |-> <<>>] /\ paused = [c \in Chans |-> FALSE]
@@ -102,6 +106,11 @@ DoFlush(ch, buf, win, st) ==
        /\ eofSent' = [eofSent EXCEPT ![ch] = @ \/ eof]
        /\ fwd' = fwd \o out
        /\ sentTot' = [sentTot EXCEPT ![ch] = @ + OutLen(r[3])]
+       \* _pause_resume_writing at the end of _flush_send_buf
+       /\ LET left == SumLens(r[1]) IN
+          spaused' = [spaused EXCEPT ![ch] =
+                         IF @ THEN ~(IF ResumeStrict THEN left < Low ELSE left <= Low)
+                         ELSE left > High]
 
 Ids(ch, dt, from, n) == [i \in 1..n |-> <<ch, dt, from + i>>]
 
@@ -132,7 +141,7 @@ RogueSend(ch, n) ==
        /\ sentTot' = [sentTot EXCEPT ![ch] = @ + n]
     /\ nrogue' = nrogue + 1
     /\ lbl' = <<"rogue", ch, n>>
-    /\ UNCHANGED <<sstate, sbuf, swin, bwd, rstate, rwin, rbuf, paused, err, delivered,
+    /\ UNCHANGED <<sstate, sbuf, swin, spaused, bwd, rstate, rwin, rbuf, paused, err, delivered,
                    dorder, eofSent, npause, granted, gotAdj, accTot>>
 
 -----------------------------------------------------------------------------
@@ -169,7 +178,7 @@ DeliverFwdP(pi) ==
        /\ pi => (m.t = "data" /\ ~paused[ch] /\ npause[ch] < MaxPause /\ rstate[ch] = "open"
                  /\ Len(m.ids) <= rwin[ch])
        /\ npause' = [npause EXCEPT ![ch] = IF pi THEN @ + 1 ELSE @]
-       /\ UNCHANGED <<sstate, sbuf, swin, written, eofSent, nrogue, sentTot, gotAdj>>
+       /\ UNCHANGED <<sstate, sbuf, swin, spaused, written, eofSent, nrogue, sentTot, gotAdj>>
        /\ CASE m.t = "data" ->
                  IF rstate[ch] # "open"
                     \/ Len(m.ids) > rwin[ch] - (IF AccountBuffered THEN Buffered(ch) ELSE 0)
@@ -224,7 +233,7 @@ Pause(ch) ==
     /\ paused' = [paused EXCEPT ![ch] = TRUE]
     /\ npause' = [npause EXCEPT ![ch] = @ + 1]
     /\ lbl' = <<"pause", ch>>
-    /\ UNCHANGED <<sstate, sbuf, swin, fwd, bwd, rstate, rwin, rbuf, err, written,
+    /\ UNCHANGED <<sstate, sbuf, swin, spaused, fwd, bwd, rstate, rwin, rbuf, err, written,
                    delivered, dorder, eofSent, nrogue, granted, sentTot, gotAdj, accTot>>
 
 \* resume_reading(): the flush loop hands over the first k buffered chunks; with
@@ -247,7 +256,7 @@ ResumeP(ch, k, rp) ==
        /\ rstate' = [rstate EXCEPT ![ch] = st]
        /\ rbuf' = [rbuf EXCEPT ![ch] = SubSeq(@, k + 1, Len(@))]
     /\ lbl' = <<"resume", ch, k, rp>>
-    /\ UNCHANGED <<sstate, sbuf, swin, fwd, err, written, eofSent, nrogue,
+    /\ UNCHANGED <<sstate, sbuf, swin, spaused, fwd, err, written, eofSent, nrogue,
                    sentTot, gotAdj, accTot>>
 
 Resume(ch) == \E k \in 0..Len(rbuf[ch]), rp \in BOOLEAN : ResumeP(ch, k, rp)
@@ -287,6 +296,9 @@ NeverExceedPktSize == nrogue = 0 => \A i \in 1..Len(fwd) : Len(fwd[i].ids) <= Pk
 NeverAcceptBeyondGrant == \A ch \in Chans : accTot[ch] <= granted[ch]
 BufferBounded == \A ch \in Chans : Buffered(ch) <= InitWin
 WindowSane == \A ch \in Chans : rwin[ch] <= InitWin /\ swin[ch] <= InitWin + MaxUnits * 2
+\* the session is only kept from writing while more than the low-water mark is buffered
+\* (a writer waiting in drain() is released when the buffer has drained)
+WriterNotStuck == \A ch \in Chans : spaused[ch] => SumLens(sbuf[ch]) > Low
 \* an honest pair never runs into the protocol error
 HonestNoError == nrogue = 0 => ~err
 
